@@ -232,8 +232,8 @@ def stepLine (line : String) : String :=
   | "exams" :: rest => examSingleLine rest
   | "examf" :: f :: rest => examMemberLine (N f) rest
   | "examm" :: rest => examMultiLine rest
-  | "ctrunc" :: nm :: sizeAll :: bytes :: fileLen :: offs =>
-    match readDatasets (nm = "1") (offs.map N) (N sizeAll) (N bytes) (N fileLen) with
+  | "ctrunc" :: dyn :: nm :: sizeAll :: bytes :: fileLen :: offs =>
+    match readDatasets (dyn = "1") (nm = "1") (offs.map N) (N sizeAll) (N bytes) (N fileLen) with
     | .ok _ => "ok"
     | .error _ => "err"
   | "mtrunc" :: sizeAll :: bytes :: lens =>
